@@ -278,6 +278,11 @@ protected:
       }
 
       variable_t y(p.second);
+      if (coeff == Wt(0)) {
+        // 0*y does not contribute to exp: there is no difference
+        // constraint between x and y to extract.
+        continue;
+      }
       if (coeff < Wt(0)) {
         // Can't do anything with negative coefficients.
         bound_t y_val =
